@@ -37,8 +37,13 @@ Pool1 == << Row("Sell", 2, "4", "8.00", "0.50", "", "plain", FALSE), Row("Sell",
 Pool2 == << Row("Sell", 2, "4", "8.00", "0.50", "", "plain", FALSE), Row("Sell", 2, "4", "8.00", "0.50", "", "plain", FALSE),
             Row("CancelSell", 2, "4", "8.00", "", "", "plain", FALSE), Row("CashDividend", 2, "", "", "", "6.00", "plain", FALSE),
             Row("NraWithholding", 2, "", "", "", "-1.50", "plain", FALSE) >>
+\* two sells whose prices differ only below a cent and a cancellation at the price rounded to the cent: it matches NEITHER
+\* (a Cancel Sell removes a Sell equal in date, symbol, quantity and price, or warns) -- both disposals stay
+Pool3 == << Row("Sell", 2, "10", "55.1234", "", "", "plain", FALSE), Row("Sell", 2, "10", "55.1199", "", "", "plain", FALSE),
+            Row("CancelSell", 2, "10", "55.12", "", "", "plain", FALSE), Row("Buy", 1, "10", "5.00", "1.00", "", "plain", FALSE),
+            Row("CashDividend", 2, "", "", "", "6.00", "plain", FALSE) >>
 PermSeqs(seq) == {[ix \in 1..Len(seq) |-> seq[pm[ix]]] : pm \in {qm \in [1..Len(seq) -> 1..Len(seq)] : \A ix, jx \in 1..Len(seq) : ix # jx => qm[ix] # qm[jx]}}
-Exports == UNION {[1..n -> Alphabet] : n \in 0..MaxRows} \cup (IF Pools THEN PermSeqs(Pool1) \cup PermSeqs(Pool2) ELSE {})
+Exports == UNION {[1..n -> Alphabet] : n \in 0..MaxRows} \cup (IF Pools THEN PermSeqs(Pool1) \cup PermSeqs(Pool2) \cup PermSeqs(Pool3) ELSE {})
 MCInit == \E rs \in Exports : SInit(rs)
 MCSpec == MCInit /\ [][SNext]_svars
 
